@@ -75,6 +75,15 @@ def _policy(rng, with_default):
     # attributes whose value is null in the target compare equal to None
     rules['svc:nulls'] = 'None:%(target.user.id)s or None:%(project_id)s'
     rules['svc:notnull'] = 'role:member and not None:%(project_id)s'
+    # names whose order differs between comparing the names and comparing
+    # their colon-separated components (characters sorting below ':'),
+    # upper case, several colons
+    for n, t in (('svc2:get', 'role:reader'), ('svc-ext:get', 'role:member'),
+                 ('svc.v2:list', '@'), ('svc:get:detail', 'role:admin'),
+                 ('svc:get-ext', '!'), ('Svc:get', 'role:reader'),
+                 ('svc :get', 'role:member'), ('svc:', 'role:reader'),
+                 (':svc', 'role:admin')):
+        rules[n] = t
     if with_default:
         rules['default'] = rng.choice(['role:admin', '!', '@',
                                        'rule:admin_required'])
